@@ -88,3 +88,597 @@ def frac_solve(A, B):
 def frac_inverse(A):
     n = len(A)
     return frac_solve(A, [[Fr(int(i == j)) for j in range(n)] for i in range(n)])
+
+
+# ------------------------------------------------------------------------------------------------
+# C14 proper
+
+EPS = Fr(common.EPS)
+# accepted ratios (in units of eps * scale); the observed maxima on the unchanged tree are printed in the evidence
+C_MATRIX = 1024      # |attribute entry - model entry| / (eps * sum|terms|)
+C_RESIDUAL = 1 << 12  # |A xhat - b| / (eps * (rowabs(A) max|xhat| + rowabs(Mass) max|c|)), third-party LU + interpolation + evaluation
+C_ORACLE = 1 << 14  # same residual, formed in floating point with the independent dense numpy assembly
+C_ZERO = 64         # |phi at a Dirichlet boundary| / (eps * max|phi|)
+
+
+def lam(kind, *p):
+    """coefficient functions as plain Python callables (the solver np.vectorize's them)"""
+    if kind == 'const':
+        return lambda r: p[0]
+    if kind == 'lin':
+        return lambda r: p[0] + p[1] * r
+    if kind == 'inv':
+        return lambda r: p[0] / r
+    if kind == 'inv2':
+        return lambda r: p[0] / r ** 2
+    if kind == 'invlin':
+        return lambda r: -(1 / r + p[0] * r)
+    if kind == 'quad':
+        return lambda r: p[0] + p[1] * r * r
+    if kind == 'exp':
+        return lambda r: p[0] * float(np.exp(-p[1] * r)) + p[2]
+    raise ValueError(kind)
+
+
+def rand_coefs(rng, manufactured=False):
+    """returns dict arg-name -> (spec, callable); absent key = constructor default"""
+    c = {}
+    if manufactured:
+        if rng.random() < 0.7:
+            c['ddrFactor'] = ('const', rng.choice([-1.0, 1.0, -2.5, 0.5]))
+        if rng.random() < 0.7:
+            c['drFactor'] = ('const', rng.choice([0.75, -1.5, 2.0]))
+        c['rFactor'] = ('const', rng.choice([0.0, 1.25, 3.0, 0.5]))
+        c['ddThetaFactor'] = ('const', rng.choice([-1.0, 0.0, -0.5, 0.25]))
+        if rng.random() < 0.5:
+            c['rhoFactor'] = ('const', rng.choice([1.0, 2.0, -0.5]))
+    else:
+        if rng.random() < 0.6:
+            c['ddrFactor'] = ('const', rng.choice([-1.0, 1.0, -2.5, 0.5]))
+        if rng.random() < 0.75:
+            c['drFactor'] = rng.choice([('const', 0.75), ('inv', -1.0), ('invlin', 0.1), ('lin', 0.3, -0.2), ('const', 0.0)])
+        if rng.random() < 0.75:
+            c['rFactor'] = rng.choice([('const', 2.0), ('lin', 1.0, 0.5), ('exp', 1.0, 0.3, 0.5), ('const', 0.0), ('quad', 0.5, 0.1)])
+        if rng.random() < 0.75:
+            c['ddThetaFactor'] = rng.choice([('inv2', -1.0), ('const', -1.0), ('const', 0.0), ('lin', -1.0, -0.1)])
+        if rng.random() < 0.6:
+            c['rhoFactor'] = rng.choice([('quad', 1.0, 1.0), ('const', 2.0), ('exp', 1.0, 0.2, 0.1), ('inv', 1.0)])
+    return {k: (v, lam(*v)) for k, v in c.items()}
+
+
+DEFAULTS = {'ddrFactor': lambda r: -1, 'drFactor': lambda r: 0, 'rFactor': lambda r: 0,
+            'ddThetaFactor': lambda r: -1, 'rhoFactor': lambda r: 1}
+ARGS = ['ddrFactor', 'drFactor', 'rFactor', 'ddThetaFactor', 'rhoFactor']
+
+
+def coef_callables(coefs):
+    return [coefs[k][1] if k in coefs else DEFAULTS[k] for k in ARGS]
+
+
+def mvals(N):
+    return [k if k < (N - 1) // 2 + 1 else k - N for k in range(N)]
+
+
+def gauss_setup(rs_breaks, qdeg):
+    """Gauss points on the cells, computed the way the property states it (affine image of leggauss(n) on each
+    cell, n = degree//2+1); floats"""
+    from numpy.polynomial.legendre import leggauss
+    n = qdeg // 2 + 1
+    pts, wts = leggauss(n)
+    br = np.asarray(rs_breaks, float)
+    mult = (br[1] - br[0]) * 0.5
+    ev = ((br[1:] + br[:-1]) * 0.5)[:, None] + pts[None, :] * mult
+    return pts, wts, mult, ev
+
+
+def solver_request(rs, qdeg, fns, extra):
+    """the `solver` request of Drivers/C14.lean for radial spline `rs` (the non-cubic-uniform one the solver uses)"""
+    kn = frac_knots(rs)
+    pts, wts, mult, ev = gauss_setup(rs.breaks, qdeg)
+    tabs = {k: [[common.rat(float(f(float(x)))) for x in row] for row in ev] for k, f in zip('ABCDE', fns)}
+    req = {'op': 'solver', 'knots': [str(k) for k in kn], 'degree': int(rs.degree), 'ncells': int(rs.ncells),
+           'weights': common.rats(wts), 'mult': common.rat(mult), 'evalpts': [common.rats(r) for r in ev]}
+    req.update(tabs)
+    req.update(extra)
+    return req, ev
+
+
+def fr_matrix(m):
+    return [[Fr(v) for v in row] for row in m]
+
+
+def collocation_tools(rs, nodes):
+    """exact collocation matrix at the radial nodes and its exact inverse"""
+    kn, d = frac_knots(rs), rs.degree
+    xs = [Fr(float(x)) for x in nodes]
+    M = [[frac_basis(kn, d, j, x) for j in range(rs.nbasis)] for x in xs]
+    return M, frac_inverse(M)
+
+
+def fr_matvec(M, v):
+    return [sum(a * b for a, b in zip(row, v) if a) for row in M]
+
+
+# ---- independent dense Galerkin assembly (oracle; numpy/scipy only, no pygyro spline code, no Lean)
+
+def oracle_assembly(knots, d, breaks, qdeg, fns):
+    from numpy.polynomial.legendre import leggauss
+    from scipy.interpolate import BSpline
+    n = qdeg // 2 + 1
+    pts, wts = leggauss(n)
+    t = np.asarray(knots, float)
+    nb = len(t) - d - 1
+    eye = np.eye(nb)
+    Bs = [BSpline(t, eye[j], d) for j in range(nb)]
+    dBs = [b.derivative(1) for b in Bs]
+    fA, fB, fC, fD, fE = [np.vectorize(f, otypes=[float]) for f in fns]
+    mass = np.zeros((nb, nb))
+    k2 = np.zeros((nb, nb))
+    stiff = np.zeros((nb, nb))
+    pts_all, w_all = [], []
+    for a, b in zip(breaks[:-1], breaks[1:]):
+        x = 0.5 * (a + b) + 0.5 * (b - a) * pts
+        w = 0.5 * (b - a) * wts
+        pts_all.append(x)
+        w_all.append(w)
+        P = np.array([bj(x) for bj in Bs])       # nb x nq, P[j] = B_j(x)
+        dP = np.array([bj(x) for bj in dBs])
+        # row = test function i, column = trial function j
+        mass += (P * (w * fE(x) * x)) @ P.T
+        k2 += (P * (w * fD(x) * x)) @ P.T
+        stiff += (dP * (w * -fA(x) * x)) @ dP.T          # -A phi_j' psi_i' r
+        stiff += (P * (w * -fA(x))) @ dP.T               # -A phi_j' psi_i
+        stiff += (P * (w * fB(x) * x)) @ dP.T            # B phi_j' psi_i r
+        stiff += (P * (w * fC(x) * x)) @ P.T             # C phi_j psi_i r
+    return {'mass': mass, 'k2': k2, 'stiff': stiff, 'nb': nb, 'x': np.concatenate(pts_all), 'w': np.concatenate(w_all),
+            'Bs': Bs}
+
+
+def oracle_colloc(knots, d, nodes):
+    from scipy.interpolate import BSpline
+    t = np.asarray(knots, float)
+    nb = len(t) - d - 1
+    eye = np.eye(nb)
+    return np.array([BSpline(t, eye[j], d)(np.asarray(nodes, float)) for j in range(nb)]).T
+
+
+def build_case(chk, rng, it):
+    d = rng.choice([1, 2, 3, 3, 4, 5])
+    ncells = rng.randint(1, 6)
+    if rng.random() < 0.15:
+        ncells = rng.choice([1, 2])
+    nr = ncells + d
+    uniform_flag = rng.random() < 0.6
+    N = rng.randint(1, 7)
+    nz = rng.randint(1, 3)
+    qdeg = rng.choice([2 * d, 2 * d + 1, 2 * d + 2, max(1, d), 3, 1])
+    manufactured = rng.random() < 0.35 and d >= 2
+    if manufactured:
+        qdeg = rng.choice([2 * d, 2 * d + 1, 2 * d + 3])
+    coefs = rand_coefs(rng, manufactured)
+    mv = mvals(N)
+    style = rng.choice(['none', 'all_l', 'all_u', 'qn', 'random', 'random', 'both'])
+    if manufactured:
+        style = rng.choice(['none', 'all_l', 'all_u', 'both'])
+    extra = [rng.randint(8, 12), -9]
+    if style == 'none':
+        lneu, uneu = [], []
+    elif style == 'all_l':
+        lneu, uneu = list(mv), []
+    elif style == 'all_u':
+        lneu, uneu = [], list(mv)
+    elif style == 'qn':
+        lneu, uneu = [0], []
+    elif style == 'both':
+        lneu, uneu = list(mv), list(mv)
+    else:
+        lneu = [m for m in mv if rng.random() < 0.4] + ([rng.choice(extra)] if rng.random() < 0.3 else [])
+        uneu = [m for m in mv if rng.random() < 0.4] + ([rng.choice(extra)] if rng.random() < 0.3 else [])
+        rng.shuffle(lneu)
+        rng.shuffle(uneu)
+    rrange = rng.choice([(1.0, 3.0), (0.1, 14.5), (2.0, 9.0), (0.5, 1.5)])
+    func_rhs = rng.random() < 0.3
+    grids = [(1,)] + [(p,) for p in range(2, 7) if p <= N] + [(p, q) for p in range(1, 5) for q in range(2, 4)
+                                                                if p * q <= 6 and p <= N and q <= nz]
+    nprocs = rng.choice(grids)
+    return {'d': d, 'ncells': ncells, 'nr': nr, 'uniform_flag': uniform_flag, 'N': N, 'nz': nz, 'qdeg': qdeg,
+            'coefs': coefs, 'lneu': lneu, 'uneu': uneu, 'rrange': rrange, 'func_rhs': func_rhs,
+            'manufactured': manufactured, 'nprocs': list(nprocs), 'seed': rng.randrange(1 << 30), 'style': style}
+
+
+def case_desc(cs):
+    out = {k: cs[k] for k in ('d', 'ncells', 'nr', 'uniform_flag', 'N', 'nz', 'qdeg', 'lneu', 'uneu', 'rrange',
+                              'func_rhs', 'manufactured', 'nprocs', 'seed')}
+    out['coefs'] = {k: v[0] for k, v in cs['coefs'].items()}
+    return out
+
+
+def run_solver(cs, S, rho_global, rho_func=None, want_attrs=True, float_lists=False):
+    """real DiffEqSolver on the simulated ranks; rho_global[N, nz, nr] complex (mode space)"""
+    from mpi4py import MPI
+    from pygyro.model.layout import getLayoutHandler
+    from pygyro.model.grid import Grid
+    from pygyro.poisson.poisson_solver import DiffEqSolver
+    eta, bs = S['eta'], S['bsplines']
+    nprocs = cs['nprocs']
+    kwargs = {k: v[1] for k, v in cs['coefs'].items()}
+    lneu = [float(m) for m in cs['lneu']] if float_lists else list(cs['lneu'])
+    uneu = [float(m) for m in cs['uneu']] if float_lists else list(cs['uneu'])
+
+    def body():
+        comm = MPI.COMM_WORLD
+        try:
+            ps = DiffEqSolver(cs['qdeg'], bs[0], cs['nr'], cs['N'], lNeumannIdx=lneu, uNeumannIdx=uneu, **kwargs)
+        except ValueError as e:
+            return {'refused': str(e)}
+        h = getLayoutHandler(comm, {'mode_solve': [1, 2, 0]}, list(nprocs), eta)
+        phi = Grid(eta, bs, h, 'mode_solve', comm, dtype=np.complex128)
+        rho = Grid(eta, bs, h, 'mode_solve', comm, dtype=np.complex128)
+        L = phi.getLayout('mode_solve')
+        sl = (slice(L.starts[0], L.ends[0]), slice(L.starts[1], L.ends[1]))
+        rho._f[:] = rho_global[sl]
+        phi._f[:] = 1e300
+        if rho_func is not None:
+            ps.solveEquationForFunction(phi, rho_func)
+        else:
+            ps.solveEquation(phi, rho)
+        out = {'starts': [int(x) for x in L.starts], 'phi': np.array(phi._f), 'rho_after': np.array(rho._f),
+               'rho_in': np.array(rho_global[sl])}
+        if want_attrs and comm.Get_rank() == 0:
+            at = {}
+            try:
+                at['mass'] = ps._massMatrix.toarray()
+                at['k2'] = ps._k2PhiPsi.toarray()
+                at['phipsi'] = ps._PhiPsi.toarray()
+                at['dphidpsi'] = ps._dPhidPsi.toarray()
+                at['dphipsi'] = ps._dPhiPsi.toarray()
+                at['stiffness'] = ps._stiffnessMatrix.toarray()
+                at['coeff_range'] = [[int(s.start), int(s.stop)] for s in ps._coeff_range]
+                at['stiff_range'] = [[int(s.start), int(s.stop)] for s in ps._stiffness_range]
+                at['m2'] = [float(x) for x in ps._mVals]
+                at['n_unknowns'] = int(ps._nUnknowns)
+            except AttributeError as e:
+                at = {'unavailable': str(e)}
+            out['attrs'] = at
+        return out
+    return MPI.run(int(np.prod(nprocs)), body, policy='random', seed=cs['seed'] & 0xffff)
+
+
+def gather_phi(res, shape):
+    out = np.full(shape, np.nan, dtype=complex)
+    for o in res.values():
+        s = o['starts']
+        b = o['phi']
+        out[s[0]:s[0] + b.shape[0], s[1]:s[1] + b.shape[1], :] = b
+    return out
+
+
+def compare_attrs(chk, cs, at, mo, stats):
+    """mechanism level (explicitly part of the property's anchors): assembled matrices and slices vs model"""
+    if 'unavailable' in at:
+        chk.count('attributes unavailable')
+        return
+    nb = cs['nr']
+    s, e = mo['start_range'], mo['start_range'] + mo['n_unknowns']
+    M = {k: fr_matrix(v) for k, v in mo['matrices'].items()}
+    Ab = {k: fr_matrix(v) for k, v in mo['abs'].items()}
+    for name in ('mass', 'k2', 'phipsi', 'dphidpsi', 'dphipsi'):
+        imp = at[name]
+        cols = range(nb) if name == 'mass' else range(s, e)
+        if imp.shape != (e - s, len(cols)):
+            chk.diff('matrix shape ' + name, case_desc(cs), [e - s, len(cols)], list(imp.shape))
+            continue
+        for a, r in enumerate(range(s, e)):
+            for b, c in enumerate(cols):
+                ex, sc = M[name][r][c], Ab[name][r][c]
+                if sc:
+                    stats['matrix'] = max(stats['matrix'], float(abs(Fr(float(imp[a, b])) - ex) / (EPS * sc)))
+                if not common.close(imp[a, b], ex, sc, C_MATRIX):
+                    chk.diff('assembled %s[%d,%d]' % (name, r, c), case_desc(cs), str(float(ex)), float(imp[a, b]))
+                    return
+    for I, md in enumerate(mo['modes']):
+        if at['coeff_range'][I] != md['coeff_range'] or at['stiff_range'][I] != md['stiff_range']:
+            chk.diff('boundary slices of mode %d' % I, case_desc(cs), md, [at['coeff_range'][I], at['stiff_range'][I]])
+        if not common.close(at['m2'][I], Fr(md['m2']), Fr(md['m2']), 8):
+            chk.diff('squared mode number %d' % I, case_desc(cs), md['m2'], at['m2'][I])
+    if at['n_unknowns'] != mo['n_unknowns']:
+        chk.diff('nUnknowns', case_desc(cs), mo['n_unknowns'], at['n_unknowns'])
+
+
+def exact_queries(cs, rs, nodes, rho_g, phi_g, pairs, Minv, rho_at=None):
+    """driver queries for the (I, z, part) triples: coefficients recovered exactly from the grid values"""
+    qs = []
+    for (I, z, part) in pairs:
+        ph = [Fr(float(v)) for v in (phi_g[I, z].real if part == 0 else phi_g[I, z].imag)]
+        xhat = fr_matvec(Minv, ph)
+        q = {'I': I, 'xhat': [str(v) for v in xhat], 'phi': [str(v) for v in ph]}
+        if rho_at is not None:
+            q['rho_at'] = rho_at if part == 0 else [['0'] * len(r) for r in rho_at]
+        else:
+            rh = [Fr(float(v)) for v in (rho_g[I, z].real if part == 0 else rho_g[I, z].imag)]
+            q['rho'] = [str(v) for v in rh]
+            q['rho_c'] = [str(v) for v in fr_matvec(Minv, rh)]
+        qs.append(q)
+    return qs
+
+
+def one_case(chk, drv, it, stats):
+    rng = chk.rng
+    cs = build_case(chk, rng, it)
+    desc = case_desc(cs)
+    d, nr, N, nz = cs['d'], cs['nr'], cs['N'], cs['nz']
+    S = make_setup([nr], [d], cs['uniform_flag'], rrange=cs['rrange'], period=(False,))
+    # theta / z grids are only labels here
+    S['eta'] = [S['eta'][0], np.arange(N, dtype=float), np.arange(nz, dtype=float)]
+    S['bsplines'] = [S['bsplines'][0], None, None]
+    from pygyro.splines.splines import BSplines, make_knots
+    rs0 = S['bsplines'][0]
+    rs = BSplines(make_knots(rs0.breaks, 3, False), 3, False, False) if rs0.cubic_uniform else rs0
+    nodes = S['eta'][0]
+    fns = coef_callables(cs['coefs'])
+    nprng = np.random.RandomState(cs['seed'])
+    mv = mvals(N)
+    lset, uset = set(cs['lneu']), set(cs['uneu'])
+
+    # ---------- expected refusal (oracle, independent): pure Neumann requested and C == 0 at all Gauss points
+    _, _, _, ev = gauss_setup(rs.breaks, cs['qdeg'])
+    cnull = all(float(fns[2](float(x))) == 0 for x in ev.ravel())
+    expect_refusal = bool(lset & uset) and cnull
+
+    # ---------- right-hand side
+    oa = oracle_assembly([float(k) for k in frac_knots(rs)], d, np.asarray(rs.breaks, float), cs['qdeg'], fns)
+    Vc = oracle_colloc([float(k) for k in frac_knots(rs)], d, nodes)
+    rho_func = None
+    phi_star = None
+    if not expect_refusal:
+        # under-integrated or otherwise singular mode systems are outside the claim (the solve is "any x with A x = b")
+        for m in set(mv):
+            idx = mode_index_set(oa['nb'], m, lset, uset)
+            if idx and np.linalg.cond((oa['stiff'] - m * m * oa['k2'])[np.ix_(idx, idx)]) > 1e9:
+                chk.count('discarded: singular / ill-conditioned mode system')
+                return
+    if cs['manufactured']:
+        a, b = cs['rrange']
+        pl = 2 if (lset and style_is_neumann(cs, 'l')) else 1
+        pu = 2 if (uset and style_is_neumann(cs, 'u')) else 1
+        if d < pl + pu:
+            cs['manufactured'] = False
+        else:
+            P = np.poly1d([1.0, -a]) ** pl * np.poly1d([-1.0, b]) ** pu
+            rest = d - pl - pu
+            P = P * np.poly1d(nprng.uniform(0.5, 1.5, size=rest + 1))
+            cA, cB, cC, cD, cE = [float(f(1.0)) for f in fns]
+            rho_pol = {m: (cA * P.deriv(2) + cB * P.deriv(1) + cC * P - (m * m * cD) * P) / cE for m in set(mv)}
+            fac = nprng.uniform(-1, 1, size=(N, nz)) + 1j * nprng.uniform(-1, 1, size=(N, nz))
+            if cs['func_rhs']:
+                fac = np.ones((N, nz), complex)
+                if len(set(m * m for m in mv)) > 1 and cD != 0:
+                    cs['func_rhs'] = False   # a function right-hand side is the same for all modes
+                    fac = nprng.uniform(-1, 1, size=(N, nz)) + 1j * nprng.uniform(-1, 1, size=(N, nz))
+            rho_g = np.array([[fac[I, z] * rho_pol[mv[I]](nodes) for z in range(nz)] for I in range(N)])
+            phi_star = np.array([[fac[I, z] * P(nodes) for z in range(nz)] for I in range(N)])
+            if cs['func_rhs']:
+                rp = rho_pol[mv[0]]
+                rho_func = lambda r: rp(r)  # noqa: E731
+    if not cs['manufactured']:
+        rho_g = nprng.uniform(-1, 1, size=(N, nz, nr)) + 1j * nprng.uniform(-1, 1, size=(N, nz, nr))
+        if cs['func_rhs']:
+            kf = nprng.uniform(0.2, 1.5)
+            rho_func = lambda r: np.cos(kf * r) + 0.25 * r  # noqa: E731
+    desc = case_desc(cs)
+
+    res = run_solver(cs, S, rho_g, rho_func)
+    if not res.ok:
+        chk.fail('C14:crash', 'DiffEqSolver raised: ' + str(res.first_error())[:200], desc)
+        return
+    outs = res.values()
+    refused = 'refused' in outs[0]
+    # ---------- model (decision part first)
+    sl = drv.call({'op': 'slices', 'nb': nr, 'N': N, 'lneu': cs['lneu'], 'uneu': cs['uneu'], 'cnull': cnull})
+    if 'error' in sl:
+        raise RuntimeError(sl['error'])
+    if refused != expect_refusal:
+        chk.fail('C14:refusal', 'constructor %s although %s' % ('raised' if refused else 'accepted',
+                 'no ill-posed pure-Neumann mode list was given' if refused else 'some mode number is Neumann at both ends and the reaction term vanishes'),
+                 desc, expect_refusal, refused)
+    if sl['refuses'] != refused:
+        chk.diff('refusal', desc, sl['refuses'], refused)
+    chk.count('refused' if refused else 'accepted')
+    if refused or expect_refusal:
+        chk.case(('refusal', tuple(cs['lneu']), tuple(cs['uneu']), cnull), nontrivial=True)
+        return
+    phi_g = gather_phi(res, (N, nz, nr))
+    for o in outs:
+        if not np.array_equal(o['rho_after'], o['rho_in']):
+            chk.fail('C14:rho-modified', 'solveEquation modified its right-hand side grid', desc)
+    if np.isnan(phi_g.real).any() or (np.abs(phi_g) > 1e200).any():
+        chk.fail('C14:phi-not-written', 'part of phi was not written', desc)
+        return
+
+    # ---------- model: matrices, slices, exact Galerkin residual of the returned phi
+    M, Minv = collocation_tools(rs, nodes)
+    allpairs = [(I, z, part) for I in range(N) for z in range(nz) for part in (0, 1)]
+    if rho_func is not None:
+        allpairs = [(I, z, 0) for I in range(N) for z in range(nz)]
+    rng.shuffle(allpairs)
+    pairs = sorted(set([(I, 0, 0) for I in range(N)] + allpairs[:chk.n(4, 12)]))
+    rho_at = None
+    if rho_func is not None:
+        rho_at = [[common.rat(float(rho_func(float(x)))) for x in row] for row in ev]
+    req, _ = solver_request(rs, cs['qdeg'], fns, {'N': N, 'lneu': cs['lneu'], 'uneu': cs['uneu'],
+                                                 'nodes': common.rats(nodes),
+                                                 'queries': exact_queries(cs, rs, nodes, rho_g, phi_g, pairs, Minv, rho_at)})
+    mo = drv.call(req)
+    if 'error' in mo:
+        raise RuntimeError('driver: ' + mo['error'])
+    mo['modes'] = sl['modes']
+    at = outs[0].get('attrs')
+    if at is not None:
+        compare_attrs(chk, cs, at, mo, stats)
+    for (I, z, part), q in zip(pairs, mo['queries']):
+        if any(Fr(v) != 0 for v in q['eval_residual']):
+            raise RuntimeError('harness: exact collocation of the harness and of the Lean model disagree')
+        ph = phi_g[I, z].real if part == 0 else phi_g[I, z].imag
+        xmax = max([abs(Fr(v)) for v in req['queries'][pairs.index((I, z, part))]['xhat']] + [Fr(0)])
+        if rho_func is None:
+            cmax = max(abs(Fr(v)) for v in req['queries'][pairs.index((I, z, part))]['rho_c'])
+            mrow = None
+        bad = None
+        for a in range(q['size']):
+            ra = Fr(q['rowabs'][a])
+            sc = ra * xmax + Fr(q['rhs_abs'][a]) * (1 if rho_func is not None else 1)
+            if rho_func is None:
+                # interpolation error of the real code enters through max|c|
+                sc = ra * xmax + Fr(q['rhs_abs'][a]) + sum(abs(Fr(v)) for v in mo['abs']['mass'][mo['start_range'] + q['stiff_range'][0] + a]) * cmax
+            r = abs(Fr(q['residual'][a]))
+            if sc:
+                stats['residual'] = max(stats['residual'], float(r / (EPS * sc)))
+            if r > C_RESIDUAL * EPS * sc and bad is None:
+                bad = (a, float(r), float(sc))
+        if bad is not None:
+            chk.diff('Galerkin residual of the returned phi (mode %d, z %d, %s part)' % (I, z, 'real' if part == 0 else 'imag'),
+                     desc, 'residual row %d <= %d eps * %g' % (bad[0], C_RESIDUAL, bad[2]), bad[1])
+        for v in q['outside']:
+            if abs(Fr(v)) > C_RESIDUAL * EPS * max(xmax, Fr(1, 10 ** 300)):
+                chk.diff('coefficient outside the mode\'s slice is not zero (mode %d)' % I, desc, 0, float(Fr(v)))
+
+    # ---------- oracle on the real output (numpy dense assembly)
+    oracle_checks(chk, cs, desc, oa, Vc, rho_g, phi_g, rho_func, mv, lset, uset, stats, phi_star)
+    more_oracles(chk, cs, S, desc, rho_g, rho_func, phi_g, oa, mv, lset, uset, nprng, it)
+    nontriv = (len(lset) + len(uset) > 0) or len(cs['coefs']) > 0
+    chk.case(('solve', d, cs['ncells'], N, nz, cs['qdeg'], tuple(cs['lneu']), tuple(cs['uneu']),
+              tuple(sorted((k, v[0]) for k, v in cs['coefs'].items())), cs['func_rhs'], tuple(cs['nprocs'])),
+             nontrivial=nontriv, sample=dict(desc, phi_mode0=[float(x) for x in phi_g[0, 0].real[:3]]) if it < 2 else None)
+    chk.count('degree %d' % d)
+    chk.count('rhs function' if rho_func is not None else 'rhs discrete')
+    chk.count('manufactured' if cs['manufactured'] else 'random rho')
+    chk.count('bc ' + cs['style'])
+    chk.count('ranks %d' % int(np.prod(cs['nprocs'])))
+    chk.count('cubic-uniform rspline' if rs0.cubic_uniform else 'general rspline')
+    chk.traces_validated += 1
+
+
+def style_is_neumann(cs, side):
+    return cs['style'] in (('all_l', 'both') if side == 'l' else ('all_u', 'both'))
+
+
+def mode_index_set(nb, m, lset, uset):
+    return list(range(0 if m in lset else 1, nb - (0 if m in uset else 1)))
+
+
+def oracle_checks(chk, cs, desc, oa, Vc, rho_g, phi_g, rho_func, mv, lset, uset, stats, phi_star):
+    nb = oa['nb']
+    N, nz = cs['N'], cs['nz']
+    eps = common.EPS
+    for I in range(N):
+        m = mv[I]
+        idx = mode_index_set(nb, m, lset, uset)
+        Aop = (oa['stiff'] - (m * m) * oa['k2'])[np.ix_(idx, idx)]
+        absA = (np.abs(oa['stiff']) + (m * m) * np.abs(oa['k2']))[np.ix_(idx, idx)]
+        for z in range(nz):
+            xh = np.linalg.solve(Vc, phi_g[I, z])
+            if rho_func is not None:
+                b = np.array([np.sum(oa['w'] * oa['Bs'][j](oa['x']) * oa['x'] * rho_func(oa['x'])) for j in idx]).astype(complex)
+                bs = np.array([np.sum(np.abs(oa['w'] * oa['Bs'][j](oa['x']) * oa['x'] * rho_func(oa['x']))) for j in idx])
+            else:
+                c = np.linalg.solve(Vc, rho_g[I, z])
+                b = oa['mass'][idx, :] @ c
+                bs = np.abs(oa['mass'][idx, :]).sum(axis=1) * np.abs(c).max()
+            r = Aop @ xh[idx] - b
+            sc = absA.sum(axis=1) * max(np.abs(xh).max(), 1e-300) + bs
+            ratio = np.abs(r) / (eps * np.where(sc > 0, sc, 1))
+            stats['oracle'] = max(stats['oracle'], float(ratio.max()) if len(ratio) else 0.0)
+            if len(ratio) and ratio.max() > C_ORACLE:
+                chk.fail('C14:galerkin', 'returned phi does not satisfy the Galerkin weak form of the mode (independent dense assembly)',
+                         dict(desc, mode_index=I, m=m, z=z), 'residual <= %d eps scale' % C_ORACLE, float(ratio.max()))
+                return
+            # Dirichlet: the value at the boundary node vanishes
+            pm = max(np.abs(phi_g[I, z]).max(), 1e-300)
+            if m not in lset and abs(phi_g[I, z, 0]) > C_ZERO * eps * pm:
+                chk.fail('C14:dirichlet', 'phi does not vanish at the lower Dirichlet boundary', dict(desc, mode_index=I), 0.0, abs(phi_g[I, z, 0]))
+            if m not in uset and abs(phi_g[I, z, -1]) > C_ZERO * eps * pm:
+                chk.fail('C14:dirichlet', 'phi does not vanish at the upper Dirichlet boundary', dict(desc, mode_index=I), 0.0, abs(phi_g[I, z, -1]))
+            if phi_star is not None:
+                cond = np.linalg.cond(Aop)
+                tol = 256 * eps * cond * max(np.abs(phi_star[I, z]).max(), 1e-300) * 16
+                err = np.abs(phi_g[I, z] - phi_star[I, z]).max()
+                stats['manufactured'] = max(stats['manufactured'], float(err / (eps * cond * max(np.abs(phi_star[I, z]).max(), 1e-300))))
+                if err > tol:
+                    chk.fail('C14:manufactured', 'a polynomial solution in the spline space is not reproduced',
+                             dict(desc, mode_index=I, m=m, z=z, cond=float(cond)), 'error <= %.3g' % tol, float(err))
+                    return
+
+
+def more_oracles(chk, cs, S, desc, rho_g, rho_func, phi_g, oa, mv, lset, uset, nprng, it):
+    """linearity, mode independence, serial == parallel, int/float Neumann lists (discrete right-hand sides)"""
+    if rho_func is not None:
+        return
+    N, nz, nr = cs['N'], cs['nz'], cs['nr']
+    eps = common.EPS
+    serial = dict(cs, nprocs=[1])
+    which = it % 3
+    conds = []
+    for I in range(N):
+        idx = mode_index_set(oa['nb'], mv[I], lset, uset)
+        conds.append(np.linalg.cond((oa['stiff'] - mv[I] ** 2 * oa['k2'])[np.ix_(idx, idx)]) if idx else 1.0)
+    conds = np.array(conds)
+    if which == 0:
+        a, b = nprng.uniform(-2, 2, size=2)
+        rho2 = nprng.uniform(-1, 1, size=rho_g.shape) + 1j * nprng.uniform(-1, 1, size=rho_g.shape)
+        p1 = gather_phi(run_solver(serial, S, rho_g, want_attrs=False), rho_g.shape)
+        p2 = gather_phi(run_solver(serial, S, rho2, want_attrs=False), rho_g.shape)
+        p3 = gather_phi(run_solver(serial, S, a * rho_g + b * rho2, want_attrs=False), rho_g.shape)
+        sc = (abs(a) * np.abs(p1).max(axis=2) + abs(b) * np.abs(p2).max(axis=2))
+        tol = 1024 * eps * conds[:, None] * np.maximum(sc, 1e-300)
+        if not (np.abs(p3 - (a * p1 + b * p2)).max(axis=2) <= tol).all():
+            chk.fail('C14:linearity', 'the solution is not linear in rho', desc)
+        chk.count('linearity cases')
+    elif which == 1:
+        I0, z0 = nprng.randint(N), nprng.randint(nz)
+        rho2 = nprng.uniform(-1, 1, size=rho_g.shape) + 1j * nprng.uniform(-1, 1, size=rho_g.shape)
+        rho2[I0, z0] = rho_g[I0, z0]
+        p2 = gather_phi(run_solver(cs, S, rho2, want_attrs=False), rho_g.shape)
+        dev = np.abs(p2[I0, z0] - phi_g[I0, z0]).max()
+        if dev > 64 * eps * conds[I0] * max(np.abs(phi_g[I0, z0]).max(), 1e-300):
+            chk.fail('C14:mode-independence', 'the solution of one (mode, z) slice depends on the other slices',
+                     dict(desc, mode_index=int(I0), z=int(z0)), 0.0, float(dev))
+        chk.count('mode independence cases' + ('' if dev == 0 else ' (not bitwise)'))
+    else:
+        p1 = gather_phi(run_solver(serial, S, rho_g, want_attrs=False, float_lists=True), rho_g.shape)
+        dev = np.abs(p1 - phi_g).max(axis=2)
+        if not (dev <= 64 * eps * conds[:, None] * np.maximum(np.abs(phi_g).max(axis=2), 1e-300)).all():
+            chk.fail('C14:decomposition', 'serial run (float mode lists) and distributed run (int mode lists) differ', desc)
+        chk.count('serial == distributed cases' + ('' if dev.max() == 0 else ' (not bitwise)'))
+
+
+def run(chk):
+    chk.rule = ('random degree 1-5, 1-6 cells, nTheta 1-7, nz 1-3, quadrature parameter, coefficient functions '
+                '(constant A; B,C,D,E constants / 1/r / 1/r^2 / linear / quadratic / exp), Neumann lists (none, all lower, all upper, '
+                'QN, both, random subsets incl. numbers that are no modes), discrete or function right-hand side, '
+                'cubic-uniform or general radial spline, random process grid <= 6 ranks; non-trivial = some non-default '
+                'coefficient or Neumann list; distinct by all of these')
+    chk.explanation = ('partial proof + correspondence: decision logic (slices, refusal, band storage, buffer), symmetry, linearity '
+                       'and the meaning of every assembled entry are Lean theorems; exactness of the Gauss sums for piecewise '
+                       'polynomials, the third-party solves and the spline evaluation are covered by the rational model '
+                       '(exact Galerkin residual of the returned phi) and by an independent dense numpy assembly')
+    chk.proof_side(build=not getattr(chk, 'no_build', False))
+    common.use_repo()
+    drv = common.LeanDriver('C14.lean')
+    stats = {'matrix': 0.0, 'residual': 0.0, 'oracle': 0.0, 'manufactured': 0.0}
+    try:
+        for it in range(chk.n(64, 450)):
+            one_case(chk, drv, it, stats)
+    finally:
+        drv.close()
+    chk.notes['max_ratio_matrix'] = 'max |attribute - model entry|/(eps*sum|terms|) = %.3g (accepted %d)' % (stats['matrix'], C_MATRIX)
+    chk.notes['max_ratio_residual'] = 'max exact Galerkin residual/(eps*scale) = %.3g (accepted %d)' % (stats['residual'], C_RESIDUAL)
+    chk.notes['max_ratio_oracle'] = 'max float residual of the dense numpy assembly/(eps*scale) = %.3g (accepted %d)' % (stats['oracle'], C_ORACLE)
+    chk.notes['max_ratio_manufactured'] = 'max manufactured-solution error/(eps*cond*max|phi|) = %.3g (accepted 4096)' % stats['manufactured']
+    chk.assumptions = [
+        'uniform radial breaks (the solver scales all cells with the width of the first one; pygyro builds r grids with linspace)',
+        'leggauss points/weights, spsolve, LAPACK banded interpolation solve, spline evaluation at the nodes: contracts, '
+        'checked through the exact Galerkin residual of the returned grid values',
+        'mode numbers in the Neumann lists are matched by float equality in the code; nTheta with nTheta*(1/nTheta) != 1.0 '
+        '(49, 98, ...) are not generated',
+    ]
+    return chk.finish()
